@@ -2,6 +2,7 @@
 package c04
 
 import (
+	"encoding/json"
 	"fmt"
 	"strings"
 	"testing"
@@ -66,11 +67,43 @@ func oracle(c Case) *ev.Verdict {
 	if err != nil {
 		return ev.V("ast-json", "the marshalled AST is not valid JSON: %v\n%s", err, o.AST)
 	}
+	if v := untrimmedNote(o.AST); v != "" {
+		// the note of an element is its text: the blanks and line breaks around it belong to the layout
+		return ev.V("ast:note-untrimmed", "the note %q of an element is reported with blanks or line breaks around it\n%s", v, tp)
+	}
 	want := refast.Expect(c.P.Root, model.Key{})
 	if path, d := refast.Diff(want, got, "$"); d != "" {
 		return ev.V("ast:"+ruleClass(path), "AST differs from the source at %s: %s\n%s", path, d, tp)
 	}
 	return nil
+}
+
+// untrimmedNote: the first element note (the "Comment" of an AST node, not of a rule or an enum item) that
+// begins or ends with a blank of the language
+func untrimmedNote(astJSON string) string {
+	var v any
+	if json.Unmarshal([]byte(astJSON), &v) != nil {
+		return ""
+	}
+	var walk func(x any) string
+	walk = func(x any) string {
+		m, ok := x.(map[string]any)
+		if !ok {
+			return ""
+		}
+		if c, ok := m["Comment"].(string); ok && c != strings.Trim(c, " \t\r\n") {
+			return c
+		}
+		if kids, ok := m["Children"].([]any); ok {
+			for _, k := range kids {
+				if r := walk(k); r != "" {
+					return r
+				}
+			}
+		}
+		return ""
+	}
+	return walk(v)
 }
 
 func nontrivial(p *model.Project, l *model.Layout) bool {
